@@ -70,7 +70,7 @@ MT_T = MT_Q + [
     'application/json',
 ]
 # (spelling in a Content-Type header, raw value a header object answers, expected report)
-CHARSETS_Q = [(None, None, None), ('utf-8', 'utf-8', 'utf-8'), ('ISO-8859-1', 'ISO-8859-1', 'iso-8859-1')]
+CHARSETS_Q = [(None, None, None), ('utf-8', 'utf-8', 'utf-8'), ('ISO-8859-1', 'ISO-8859-1', 'iso-8859-1'), ('ISO_8859-15', 'ISO_8859-15', 'iso_8859-15')]
 CHARSETS_T = CHARSETS_Q + [('"UTF-8"', 'UTF-8', 'utf-8'), ('us-ascii', 'us-ascii', 'us-ascii')]
 BOMS = {
     None: b'', 'utf-8': b'\xef\xbb\xbf', 'utf-16-le': b'\xff\xfe', 'utf-16-be': b'\xfe\xff',
